@@ -51,3 +51,21 @@ pub fn run_model(lines: &[String]) -> Vec<String> {
         })
         .collect()
 }
+
+/// Splits the coverage tag (` br=<tag>`) off a model answer.
+pub fn split_branch(ans: &str) -> (String, Option<String>) {
+    match ans.rsplit_once(" br=") {
+        Some((a, b)) => (a.to_string(), Some(b.to_string())),
+        None => (ans.to_string(), None),
+    }
+}
+
+#[allow(dead_code)]
+fn _unused(lines: &[String]) -> Vec<String> {
+    lines
+        .iter()
+        .map(|l| {
+            l.clone()
+        })
+        .collect()
+}
